@@ -1363,3 +1363,122 @@ def real_history(w, cfg):
     if True in results and False in results:
         w.ensure('after the history: reuse allowed gives the same split as reuse forbidden', b_same_split(results[True], results[False], F),
                  allowed=b_round(results[True]), forbidden=b_round(results[False]))
+
+
+# --------------------------------------------------------------------------- histories on the same stream with OTHER chemicals
+
+# "another composition" of the quantifier also means another list of chemicals: the stream is emptied and refilled.  One package
+# with six chemicals (partially miscible pairs water/alcohol, water/ester, water/hydrocarbon); a feed names the chemicals present.
+B_CHEM_PKG = ('Water', 'Ethanol', 'Octane', 'Butanol', 'Hexane', 'EthylAcetate')
+W.preload([B_CHEM_PKG])
+B_CHEM_FEEDS = {
+    'WEO': {'Water': 30., 'Ethanol': 3., 'Octane': 10.},
+    'WEB': {'Water': 30., 'Ethanol': 3., 'Butanol': 10.},
+    'WO': {'Water': 50., 'Octane': 10.},
+    'WB': {'Water': 50., 'Butanol': 20.},
+    'WHE': {'Water': 20., 'Hexane': 5., 'Ethanol': 2.},
+    'WEaE': {'Water': 20., 'EthylAcetate': 15., 'Ethanol': 2.},
+    'WEOH': {'Water': 30., 'Ethanol': 3., 'Octane': 10., 'Hexane': 1.},
+    'WBEa': {'Water': 40., 'Butanol': 12., 'EthylAcetate': 8.},
+}
+# target feed -> earlier contents: the same NUMBER of chemicals (coefficient vectors of equal length), fewer, more
+B_CHEM_OTHERS = {
+    'WEB': ['WEO', 'WO', 'WEOH'],
+    'WB': ['WO', 'WEaE'],
+    'WEaE': ['WHE', 'WB', 'WEOH'],
+    'WEO': ['WEB', 'WBEa', 'WB'],
+    'WEOH': ['WEB', 'WB'],
+    'WBEa': ['WHE', 'WEO'],
+}
+
+
+def real_history_chemicals_configs(tier):
+    out = []
+    quick = tier == 'quick'
+    targets = ['WEB', 'WB', 'WEaE', 'WEO'] if quick else list(B_CHEM_OTHERS)
+    for tname in targets:
+        target = B_CHEM_FEEDS[tname]
+        others = B_CHEM_OTHERS[tname]
+        tops = [None, list(target)[-2 if tname == 'WEaE' else -1]] if quick else [None] + list(target)
+        # histories: list of (feed, dT); the LAST earlier call always has another list of chemicals than the target
+        hists = {f'{others[0]}': [(others[0], 0.)],
+                 f'{others[1]}.hot+{others[0]}.cold': [(others[1], +30.), (others[0], -20.)]}
+        if not quick:
+            hists.update({f'{o}.hot': [(o, +25.)] for o in others})
+            hists.update({f'{tname}+{others[0]}': [(tname, 0.), (others[0], 0.)],                       # the target itself, then other chemicals
+                          f'{others[0]}+{tname}.cold+{others[-1]}+{others[0]}.hot': [(others[0], 0.), (tname, -15.), (others[-1], 0.), (others[0], +10.)]})
+        for T in ([300.] if quick else [290., 320., 350.]):
+            for m in B_METHODS:
+                for top in tops:
+                    if quick and m != 'pseudo' and top is None: continue
+                    for hname, hist in hists.items():
+                        out.append({'name': f'{tname}/T={T:g}/method={m}/top={top}/hist={hname}', 'target': tname, 'T': T, 'method': m,
+                                    'top': top, 'hist': [list(i) for i in hist]})
+    return out
+
+
+def b_fill(s, flows):
+    """Empty both liquids and refill 'l' with {ID: mol}."""
+    for ph, sv in W.rows_of(s):
+        sv.dct.clear()
+    IDs = s.chemicals.IDs
+    row = dict(W.rows_of(s))['l']
+    for ID, v in flows.items():
+        row.dct[IDs.index(ID)] = float(v)
+
+
+@group('C15/real_history_chemicals', configs=real_history_chemicals_configs, mode='B',
+       notes='one package Water/Ethanol/Octane/Butanol/Hexane/EthylAcetate; target feeds of 2-4 of them; histories of 1-4 earlier calls on the same '
+             'stream after which it is emptied and refilled, the last earlier call always with ANOTHER list of chemicals (the same number of them, '
+             'fewer or more) at T, T-20..T+30 K; quick: T = 300 K, thorough: 290/320/350 K; methods pseudo equilibrium / shgo / differential '
+             'evolution; top chemical None or one of the chemicals; compared with a new stream of identical contents, reuse of the remembered '
+             'coefficients allowed / forbidden; same split = every flow within 1e-3 of the total feed',
+       functions=['thermosteam.equilibrium.lle:LLE.__call__', 'thermosteam.equilibrium.lle:LLE.solve_lle_liquid_mol',
+                  'thermosteam.equilibrium.lle:LLE.get_liquid_mol_data', 'thermosteam.equilibrium.lle:pseudo_equilibrium',
+                  'thermosteam.utils.cache:Cache.retrieve'])
+def real_history_chemicals(w, cfg):
+    """
+    A call never returns the equilibrium of an earlier composition, also when the earlier composition was one of OTHER chemicals:
+    after any such history the split is the one a new stream with the same contents gets, with reuse allowed and forbidden.
+    """
+    W.reset_caches()
+    T, m, top = cfg['T'], cfg['method'], cfg['top']
+    target = B_CHEM_FEEDS[cfg['target']]
+    F = sum(target.values())
+    th = W.thermo(B_CHEM_PKG)
+    fresh = tmo.MultiStream(None, phases=('l', 'L'), thermo=th)
+    b_fill(fresh, target)
+    try:
+        b_call(fresh, T, m, top)
+    except B_ERRORS as e:
+        w.note(outcome=type(e).__name__)
+        return
+    f0 = b_flows(fresh)
+    IDs = th.chemicals.IDs
+    for i, ID in enumerate(IDs):
+        w.ensure(f'new stream: total[{ID}] over l+L unchanged', abs(f0['l'][i] + f0['L'][i] - target.get(ID, 0.)) <= 1e-9 * F)
+    results = {}
+    for use_cache in (True, False):
+        s = tmo.MultiStream(None, phases=('l', 'L'), thermo=th)
+        try:
+            for feed, dT in cfg['hist']:
+                b_fill(s, B_CHEM_FEEDS[feed])
+                b_call(s, T + dT, m, top if top in B_CHEM_FEEDS[feed] else None)
+            b_fill(s, target)
+            b_call(s, T, m, top, use_cache=use_cache)
+        except B_ERRORS as e:
+            w.note(**{f'outcome_reuse_{use_cache}': type(e).__name__})
+            continue
+        results[use_cache] = b_flows(s)
+    w.note(fresh=b_round(f0), **{f'reuse_{k}': b_round(v) for k, v in results.items()})
+    w.canary('canary (not evaluated in mode B): the new stream stays one liquid', f0['l'].sum() == 0. or f0['L'].sum() == 0.)
+    for use_cache, word in ((True, 'allowed'), (False, 'forbidden')):
+        if use_cache in results:
+            got = results[use_cache]
+            w.ensure(f'after a history with other chemicals, reuse {word}: every chemical conserved, nothing of the earlier contents left',
+                     all(abs(got['l'][i] + got['L'][i] - target.get(ID, 0.)) <= 1e-9 * F for i, ID in enumerate(IDs)), got=b_round(got))
+            w.ensure(f'after a history with other chemicals, reuse {word}: same split as a new stream', b_same_split(got, f0, F),
+                     fresh=b_round(f0), got=b_round(got))
+    if True in results and False in results:
+        w.ensure('after a history with other chemicals: reuse allowed gives the same split as reuse forbidden',
+                 b_same_split(results[True], results[False], F), allowed=b_round(results[True]), forbidden=b_round(results[False]))
